@@ -329,7 +329,8 @@ class CSVOutputFormat(KVWriter):
     """
 
     def __init__(self, filename: str):
-        self.file = open(filename, "w+")
+        # newline="" so that line breaks inside quoted values are read back unchanged
+        self.file = open(filename, "w+", newline="")
         self.keys: list[str] = []
         self.separator = ","
         self.quotechar = '"'
@@ -348,7 +349,14 @@ class CSVOutputFormat(KVWriter):
                     self.file.write(",")
                 self.file.write(key)
             self.file.write("\n")
+            in_quotes = False
             for line in lines[1:]:
+                # A quoted value may contain line breaks: only pad the physical line that ends a row
+                if line.count(self.quotechar) % 2 == 1:
+                    in_quotes = not in_quotes
+                if in_quotes:
+                    self.file.write(line)
+                    continue
                 self.file.write(line[:-1])
                 self.file.write(self.separator * len(extra_keys))
                 self.file.write("\n")
